@@ -54,7 +54,10 @@ func (s Signature) Leaf() *x509.Certificate {
 
 // Extract and verify an enveloped signature at the given root
 func Verify(root *etree.Element, sigpath string, extraCerts []*x509.Certificate) (*Signature, error) {
+	orig := root
 	root = root.Copy()
+	// the copy is detached from its ancestors, keep the namespaces they declare
+	pullDown(orig, root)
 	sigs := root.FindElements(sigpath)
 	if len(sigs) == 0 {
 		return nil, sigerrors.NotSignedError{Type: "xmldsig"}
